@@ -65,8 +65,9 @@ def sortNat (xs : List Nat) : List Nat := xs.foldl (fun acc x => ins x acc) []
 def natsStr (xs : List Nat) : String := joinOr (xs.map toString)
 
 def statusNum (c : Chain) (s : Status) : Nat :=
-  if c == [] then 3 else
-  17 + (if s.valid then 2 else 0) + (if s.failed then 4 else 0) + (if s.invAnc then 8 else 0)
+  if c == [] then Const.statusDataStored + Const.statusValid else
+  Const.statusDataStored + Const.statusHeaderStored + (if s.valid then Const.statusValid else 0)
+    + (if s.failed then Const.statusValidateFailed else 0) + (if s.invAnc then Const.statusInvalidAncestor else 0)
 
 def rowsStr (r : Rows) : String :=
   let ids := sortNat (r.map (fun e => cid e.1))
